@@ -65,8 +65,12 @@ RULE = ("histories = one cell space (Moore/von Neumann grid in 1-3 dimensions, h
         "array/list/dict, agents of six classes (subclass of subclass, mixin after the base, __bool__ False, __len__ 0, "
         "attributes some agents lack), the same graph / PropertyLayer object held by two spaces, abandoned iterators, warm "
         "neighborhood caches (120-cell chain), a rejected placement before the copy, two copies at the same time, the whole "
-        "scenario twice per process; non-trivial = a copy succeeded and >= 2 later operations changed something; distinct = "
-        "by SHA1 of the history; 14 corpus histories always first; enumerator = 606 scripted cases + 20 exotic")
+        "scenario twice per process; and an ORACLE-ONLY stream of 24 (quick) / 120 (thorough) 'multi' copies: two or three "
+        "cell spaces (Moore, von Neumann, hex, network, Voronoi; different sizes; the same layer name 'elev' with different "
+        "values) on ONE model with agents in each, copied through the roots model / either space / an agent / model.agents / "
+        "a cell (a lone cell as root is outside the statement: counted when it raises), each copied space compared with its "
+        "own original, write-through and empty-tracking checked per space, then moves in each copy; non-trivial = a copy succeeded and >= 2 later operations changed something; distinct = "
+        "by SHA1 of the history; 16 corpus histories always first; enumerator = 606 scripted cases + 20 exotic + 72 multi")
 TRUSTED_BASE = [
     "Coq 8.16.1 kernel (coqc); vm_compute for the non-vacuity Examples and for evaluating run_world in the correspondence",
     "no axioms: Print Assumptions reports 'Closed under the global context' for each of the 38 C19 theorems",
@@ -391,7 +395,7 @@ def _exotic_cases(rng, n):
 
 
 def gen_cases(rng, tier):
-    cases = _exotic_cases(rng, 20 if tier == "quick" else 100)
+    cases = _exotic_cases(rng, 20 if tier == "quick" else 100) + _multi_cases(rng, 24 if tier == "quick" else 120)
     n = 600 if tier == "quick" else 12000
     for i in range(n):
         if rng.random() < 0.12:
@@ -412,6 +416,7 @@ def _enumerate_exotic():
 
 def enumerate_cases(tier, broken=False):
     yield from _enumerate_exotic()
+    yield from _enumerate_multi()
     yield from _enumerate_main(tier, broken)
 
 
@@ -1564,6 +1569,187 @@ def _run_exotic_aset(case, add):
         add("AgentSet", "unexpected-exception", f"{type(e).__name__}: {str(e)[:200]}")
 
 
+
+# ------------------------------------------------------------------ oracle-only stream: several spaces under one root
+MULTI_COMBOS = (("moore", "vn"), ("moore", "moore"), ("hex", "net"), ("vn", "vor", "moore"), ("net", "vor"), ("moore", "hex", "vn"))
+MULTI_ROOTS = ("model", "space0", "space1", "agent", "agentset", "cell")
+
+
+def _multi_cases(rng, n):
+    return [{"kind": "multi", "stype": "multi", "combo": list(MULTI_COMBOS[i % len(MULTI_COMBOS)]),
+             "root": MULTI_ROOTS[rng.randrange(len(MULTI_ROOTS))], "mech": rng.randrange(2), "salt": rng.randrange(1000), "ops": []}
+            for i in range(n)]
+
+
+def _enumerate_multi():
+    for combo in MULTI_COMBOS:
+        for root in MULTI_ROOTS:
+            for mech in (0, 1):
+                yield {"kind": "multi", "stype": "multi", "combo": list(combo), "root": root, "mech": mech, "salt": 3, "ops": []}
+
+
+def _multi_build(case):
+    import warnings
+
+    import mesa
+    import networkx as nx
+    from mesa.discrete_space import HexGrid, Network, OrthogonalMooreGrid, OrthogonalVonNeumannGrid, VoronoiGrid
+
+    X = _exotic_classes()
+    salt = case["salt"]
+    m = mesa.Model(seed=1)
+    spaces = []
+    with warnings.catch_warnings():
+        warnings.simplefilter("ignore")
+        for k, st in enumerate(case["combo"]):
+            dims = [(3, 2), (2, 2), (2, 3)][(k + salt) % 3]
+            if st == "moore":
+                sp = OrthogonalMooreGrid(dims, torus=bool((salt + k) % 2), capacity=2, random=m.random)
+            elif st == "vn":
+                sp = OrthogonalVonNeumannGrid(dims, torus=False, capacity=None, random=m.random)
+            elif st == "hex":
+                sp = HexGrid(dims, torus=False, capacity=1, random=m.random)
+            elif st == "net":
+                sp = Network(nx.path_graph(3 + k), capacity=2, random=m.random)
+            else:
+                sp = VoronoiGrid(VOR_POINTS[(salt + k) % len(VOR_POINTS)], capacity=None, random=m.random)
+            if hasattr(sp, "create_property_layer"):
+                # the SAME layer name in every grid, different values
+                sp.create_property_layer("elev", default_value=1.5 + 10 * k, dtype=float)
+                data = sp._mesa_property_layers["elev"].data
+                data += (k + 1) * 0.25 * __import__("numpy").arange(data.size).reshape(data.shape)
+            spaces.append(sp)
+    m.spaces = spaces
+    m.grid = spaces[0]
+    vid = 0
+    for k, sp in enumerate(spaces):
+        cells = list(sp._cells.values())
+        for j in range(2):
+            vid += 1
+            a = X["XBase" if j == 0 else "XSub"](m, vid)
+            a.home = k
+            a.cell = cells[(j * 2 + salt + k) % len(cells)] if cells[(j * 2 + salt + k) % len(cells)].is_empty or sp.capacity != 1 \
+                else next(c for c in cells if c.is_empty)
+    return m, spaces
+
+
+def _multi_locate(case, root, m, spaces):
+    """the object to copy, and how to find the copied model in the copy"""
+    if root == "model":
+        return m, lambda c: c
+    if root in ("space0", "space1"):
+        sp = spaces[int(root[-1])]
+        return sp, lambda c: next(a for cell in c._cells.values() for a in cell._agents).model
+    if root == "agent":
+        return next(a for cell in spaces[-1]._cells.values() for a in cell._agents), lambda c: c.model
+    if root == "agentset":
+        return m.agents, lambda c: list(c)[0].model
+    cell = next(cell for cell in spaces[-1]._cells.values() if cell._agents)
+    return cell, lambda c: c._agents[0].model
+
+
+def _run_multi(case):
+    import gc
+    import warnings
+
+    failures = []
+
+    def add(key, what):
+        failures.append({"key": f"C19/multi/{key}", "op": 0, "what": f"[{'+'.join(case['combo'])}, root={case['root']}, "
+                         f"{MECH[case['mech']]}, salt={case['salt']}] {what}"})
+
+    def layer_bytes(sps):
+        return [tuple((n, l.data.tobytes()) for n, l in getattr(sp, "_mesa_property_layers", {}).items()) for sp in sps]
+
+    def wiring(sp, k, when):
+        layers = getattr(sp, "_mesa_property_layers", None)
+        if not isinstance(layers, dict):
+            return
+        for c in sp._cells.values():
+            for n, lay in layers.items():
+                try:
+                    v = getattr(c, n)
+                except AttributeError:
+                    add("cell-attribute-missing", f"{when}: a cell of copied space {k} has no attribute {n!r}")
+                    return
+                own = lay.data[c.coordinate]
+                if not (v == own or (v != v and own != own)):
+                    add("cell-attribute-not-own-layer", f"{when}: cell {c.coordinate} of copied space {k} reads {n} = {v!r} but "
+                                                        f"that space's own layer holds {own!r}")
+                    return
+            if "empty" in layers and bool(c.empty) != bool(c.is_empty):
+                add("empty-layer-not-tracking", f"{when}: cell {c.coordinate} of copied space {k} has empty = {bool(c.empty)} "
+                                                f"but is_empty = {c.is_empty}")
+                return
+
+    gc.disable()
+    try:
+        with warnings.catch_warnings():
+            warnings.simplefilter("ignore")
+            m, spaces = _multi_build(case)
+            before = [_xdescribe(sp, None) for sp in spaces]
+            reg_before = tuple(_xagent(a) for a in m._agents)
+            obj, find_model = _multi_locate(case, case["root"], m, spaces)
+            try:
+                cp = _xcopy(obj, case["mech"])
+                keep = list(cp) if case["root"] == "agentset" else None
+                m2 = find_model(cp)
+                spaces2 = list(m2.spaces)
+            except Exception as e:  # noqa: BLE001
+                if case["root"] == "cell":
+                    # a lone CELL as the root of a copy is outside the statement (AgentSets and spaces with their agents):
+                    # the cell is still being restored when its space is (space -> cells -> this very cell), so
+                    # _connect_cells meets a cell without coordinate.  Counted, cannot raise a verdict; when the copy
+                    # does succeed every check below applies.
+                    return {"obs": [], "failures": failures, "model": False}
+                add("copy-raises", f"copying raised {type(e).__name__}: {str(e)[:150]}")
+                return {"obs": [], "failures": failures, "model": False}
+            if tuple(_xagent(a) for a in m2._agents) != reg_before:
+                add("unfaithful-registry", "the registry of the copied model differs")
+            for k, (sp, sp2) in enumerate(zip(spaces, spaces2)):
+                d2 = _xdescribe(sp2, None)
+                for aspect in before[k]:
+                    if d2[aspect] != before[k][aspect]:
+                        add(f"unfaithful-{aspect}", f"{aspect} of copied space {k} ({type(sp).__name__}) differ from its original")
+                wiring(sp2, k, "right after the copy")
+                if any(a.model is not m2 for c in sp2._cells.values() for a in c._agents):
+                    add("agent-model-not-the-copys-model", f"an agent in copied space {k} points to another model")
+            ids = lambda sps: {id(x) for sp in sps for x in [sp, *sp._cells.values(), *getattr(sp, "_mesa_property_layers", {}).values()]}  # noqa: E731
+            if ids(spaces) & ids(spaces2) or m2 is m:
+                add("not-detached-shared-object", "a copied space shares a space / cell / layer object with an original")
+            # write through a cell attribute of copy k: only copy k's own layer may change
+            for k, sp2 in enumerate(spaces2):
+                if not hasattr(sp2, "_mesa_property_layers"):
+                    continue
+                snap_o, snap_c = layer_bytes(spaces), layer_bytes(spaces2)
+                c0 = list(sp2._cells.values())[-1]
+                c0.elev = 99.5 + k
+                now_o, now_c = layer_bytes(spaces), layer_bytes(spaces2)
+                if now_o != snap_o:
+                    add("write-reaches-another-space", f"writing cell.elev on copied space {k} changed a layer of an ORIGINAL space")
+                for j in range(len(spaces2)):
+                    if j != k and now_c[j] != snap_c[j]:
+                        add("write-reaches-another-space", f"writing cell.elev on copied space {k} changed a layer of copied space {j}")
+                if sp2._mesa_property_layers["elev"].data[c0.coordinate] != 99.5 + k:
+                    add("cell-attribute-not-own-layer", f"writing cell.elev on copied space {k} did not reach that space's own layer")
+            # continue: move an agent inside every copy; its empty layer must keep tracking, the originals must not move
+            for k, sp2 in enumerate(spaces2):
+                ags = [a for c in sp2._cells.values() for a in c._agents]
+                free = [c for c in sp2._cells.values() if c.is_empty]
+                if ags and free:
+                    ags[0].cell = free[0]
+                wiring(sp2, k, "after a move inside the copy")
+            for k, sp in enumerate(spaces):
+                if _xdescribe(sp, None) != before[k]:
+                    add("not-independent", f"operations on the copies changed original space {k}")
+            del keep
+    except Exception as e:  # noqa: BLE001
+        add("unexpected-exception", f"{type(e).__name__}: {str(e)[:200]}")
+    finally:
+        gc.enable()
+    return {"obs": [], "failures": failures, "model": False}
+
+
 def _run_aset(case):
     import copy
     import gc
@@ -1761,6 +1947,8 @@ def _run_aset(case):
 def run_impl(case):
     if case["kind"] == "exotic":
         return _run_exotic(case)
+    if case["kind"] == "multi":
+        return _run_multi(case)
     if case["kind"] == "aset":
         return _run_aset(case)
     return _run_space(case)
@@ -1831,7 +2019,7 @@ def _coq_dummy():
 
 
 def coq_case(case):
-    if case["kind"] == "exotic":
+    if case["kind"] in ("exotic", "multi"):
         return _coq_dummy()
     ops = L.lst([_coq_wop(o) for o in case.get("_ops_for_model") or case["ops"]])
     return f"{{| wc_case := {_coq_inner_case(case)}; wc_ops := {ops} |}}"
@@ -1851,6 +2039,8 @@ def _coq_inner_case(case):
 def op_kinds(case):
     if case["kind"] == "exotic":
         return [f"exotic/{case['variant']}/{MECH[case['mech']]}/{'space' if case['root'] == 0 else 'model'}"]
+    if case["kind"] == "multi":
+        return [f"multi/{'+'.join(case['combo'])}/{case['root']}/{MECH[case['mech']]}"]
     out = []
     for op in case["ops"]:
         if op[0] == "copy":
@@ -1870,7 +2060,7 @@ def _state_part(o):
 
 
 def nontrivial(case):
-    if case["kind"] == "exotic":
+    if case["kind"] in ("exotic", "multi"):
         return True
     obs = case.get("_obs", [])
     copied = False
